@@ -83,8 +83,9 @@ class Gen:
                 g = self.guard(loops)
                 if kd == 'try':
                     out.append(('try', g)); continue
-                ex = {'return': ('return',), 'continue': ('continue', None), 'break': ('break', None),
-                      'breaklab': ('break', self.r.choice(labels) if labels else None),
+                # value-less `return;` / `break `v;` leaving a ?void function / ?void value block: the void is wrapped
+                ex = {'return': ('return', self.r.random() < 0.4), 'continue': ('continue', None), 'break': ('break', None, False),
+                      'breaklab': ('break', self.r.choice(labels) if labels else None, self.r.random() < 0.4),
                       'continuelab': ('continue', self.r.choice(loop_labels) if loop_labels else None)}[kd]
                 body = [ex]
                 if self.r.random() < 0.3:
@@ -121,9 +122,9 @@ def emit(name, body, conds, with_try):
                 go(s[3], ind + 1); lines.append(pad + '}')
             elif t == 'if':
                 lines.append('%sif %s {' % (pad, guard_src(s[1]))); go(s[2], ind + 1); lines.append(pad + '}')
-            elif t == 'break': lines.append(pad + 'break' + (' `%s' % s[1] if s[1] else '') + (' nil' if s[1] and s[1].startswith('v') else '') + ';')
+            elif t == 'break': lines.append(pad + 'break' + (' `%s' % s[1] if s[1] else '') + (' nil' if s[1] and s[1].startswith('v') and not (len(s) > 2 and s[2]) else '') + ';')
             elif t == 'continue': lines.append(pad + 'continue' + (' `%s' % s[1] if s[1] else '') + ';')
-            elif t == 'return': lines.append(pad + ('return nil;' if with_try else 'return;'))
+            elif t == 'return': lines.append(pad + ('return nil;' if (with_try and not (with_try == 'void' and len(s) > 1 and s[1])) else 'return;'))
             elif t == 'try':
                 lines.append('%sopt(%s).try;' % (pad, guard_src(s[1])))
     go(body, 1)
@@ -253,8 +254,7 @@ def features(body, assign, cond_types):
     return sorted(kinds)
 
 
-def run(chk, tier, seed):
-    common.build_capy()
+def generate(tier, seed):
     rnd = random.Random(seed)
     nprog = 40 if tier == 'quick' else 400
     depth = 3 if tier == 'quick' else 4
@@ -269,12 +269,19 @@ def run(chk, tier, seed):
         if not g.conds or g.k < 2:
             continue
         progs.append(('f%d' % len(progs), body, list(g.conds), with_try))
-    progs = curated() + progs
-    src = clifcheck.PRELUDE + OPT_HELPER + ''.join(emit(n, b, c, w) for n, b, c, w in progs)
-    refs = 'refs :: () {\n' + '\n'.join('    r%d := %s;' % (i, p[0]) for i, p in enumerate(progs)) + '\n}\n'
-    mod, out = clifcheck.compile_module('C03', 'defers', src + refs + 'main :: () { refs(); }\n')
-    if mod is None:
-        raise Inconclusive('the generated defer programs were rejected by the compiler:\n' + out[-2000:])
+    return curated() + progs
+
+
+def run(chk, tier, seed):
+    common.build_capy()
+    progs = generate(tier, seed)
+    # a program the compiler does not build cannot violate C03; acceptance of these programs is decided by C01, which
+    # compiles the same generator's output (props/c01.py, acceptance corpus). Here they are set aside and counted.
+    mod, src, good, notbuilt = clifcheck.compile_programs('C03', 'defers', clifcheck.PRELUDE + OPT_HELPER, [(n, emit(n, b, c, w)) for n, b, c, w in progs])
+    if len(notbuilt) * 4 > len(progs):
+        raise Inconclusive('%d of %d generated defer programs are not compiled:\n%s' % (len(notbuilt), len(progs), notbuilt[0][2][-1500:]))
+    chk.cov['programs_not_compiled_left_to_C01'] = [n for n, _, _ in notbuilt]
+    progs = [p for p in progs if p[0] in set(good)]
     chk.opcodes.update(mod.opcodes)
     prover = Prover(chk)
     npaths = 0; bad = 0; combos = 0
@@ -328,6 +335,7 @@ def run(chk, tier, seed):
                     'verdict': 'counterexample' if prog_bad else 'all paths agree with the reference for all inputs'}, limit=4)
     chk.cov.update({'programs': len(progs), 'disagreements_checked': bad, 'paths': npaths, 'reference_input_classes': combos,
                     'explanation': 'per CLIF path one SMT query: no input on the path has a reference trace different from the path\'s mark trace'})
+    depth = 3 if tier == 'quick' else 4; maxdef = 2 if tier == 'quick' else 3
     chk.bounds.update({'nesting_depth': depth, 'defers_per_block': maxdef, 'loop_iterations': LOOP_ITERS, 'guards_per_function': '<= 6',
                        'exits': ['fall-through', 'break', 'labeled break', 'continue', 'labeled continue', 'return', '.try on an optional'],
                        'outside_claim': ['defers that themselves jump', 'defers inside comptime blocks', 'more than %d loop iterations' % LOOP_ITERS]})
